@@ -117,12 +117,12 @@ def gen_ops(rng, tree, pid, path=None):
             for x in cuts + [len(c)]:
                 pieces.append(c[prev:x]); prev = x
             pieces[0] = H.frame(H.req_put(p, exp, len(c), h)) + pieces[0]
-            ops.append({"kind": "put", "path": p, "content": c, "variant": variant, "pieces": pieces,
+            ops.append({"kind": "put", "path": p, "content": c, "variant": variant, "pieces": pieces, "exp": exp, "hash": h,
                         "bytes": H.frame(H.req_put(p, exp, len(c), h)) + c, "desc": f"put {p} {len(c)}B exp={'cur' if exp == curh else ('none' if exp is None else 'stale')} {variant} in {len(pieces)} piece(s)"})
         elif r < 8:
             exp = curh if rng.coin(2, 3) else (None if rng.coin(1, 2) else bytes(rng.bytes(32)))
             b = H.frame(H.req_delete(p, exp))
-            ops.append({"kind": "delete", "path": p, "pieces": [b], "bytes": b, "desc": f"delete {p} exp={'cur' if exp == curh else ('none' if exp is None else 'stale')}"})
+            ops.append({"kind": "delete", "path": p, "pieces": [b], "bytes": b, "exp": exp, "desc": f"delete {p} exp={'cur' if exp == curh else ('none' if exp is None else 'stale')}"})
         else:
             b = H.frame(H.req_get(p))
             ops.append({"kind": "get", "path": p, "pieces": [b], "bytes": b, "desc": f"get {p}"})
@@ -131,6 +131,75 @@ def gen_ops(rng, tree, pid, path=None):
 
 def nonstaging(t):
     return {k: v for k, v in t.items() if not k.endswith(".copia-tmp")}
+
+
+class HashCodes:
+    """hashes as small numbers for the `hubcalls` query: 0 = BLAKE3 of the empty content"""
+    def __init__(self):
+        self.codes = {bytes.fromhex(blake3_hex([b""])[0]): 0}
+
+    def of(self, h):
+        if h is None:
+            return "-"
+        h = bytes(h)
+        if h not in self.codes:
+            self.codes[h] = len(self.codes)
+        return str(self.codes[h])
+
+
+def solo_conformance(op, pr, pre_tree, rep):
+    """(model query or None, normalised real call tokens, python-side expectation or None, report)"""
+    p = op["path"]
+    pid = pr.p.pid
+    tmp = f"{p}.{pid}.copia-tmp"
+    toks = []
+    ancestors = {"/".join(p.split("/")[:k]) for k in range(1, len(p.split("/")))}
+    for call in pr.trace:
+        if call.startswith("stat ") and call[5:] in ancestors:
+            continue                      # create_dir_all probing an existing parent directory: read-only, not a step of the model
+        if call == f"open {tmp} CTW":
+            t = "create"
+        elif call.startswith(f"write {tmp} "):
+            t = "write"
+        elif call == "open .copia/commit.lock CW":
+            t = "openlock"
+        elif call == "lock .copia/commit.lock":
+            t = "lock"
+        elif call in (f"stat {p}", f"open {p} R"):
+            t = "read"
+        elif call == f"rename {tmp} -> {p}":
+            t = "commit"
+        elif op["kind"] == "put" and call == f"rename {tmp} -> {p}.conflict-{bytes(op['hash']).hex()[:12]}":
+            t = "conflict"
+        elif call == f"unlink {tmp}":
+            t = "discard"
+        elif call == f"unlink {p}":
+            t = "remove"
+        elif call == "unlock .copia/commit.lock":
+            t = "unlock"
+        else:
+            t = "?" + call.replace(" ", "_").replace(str(pid), "<pid>")
+        if toks and toks[-1] == t and t in ("write", "read"):
+            continue
+        if toks and toks[-1] == "openlock" and t == "lock":
+            toks[-1] = "lock"
+            continue
+        toks.append(t)
+    real = ",".join(toks) if toks else "-"
+    hc = HASHCODES
+    cur = pre_tree.get(p)
+    curh = bytes.fromhex(blake3_hex([cur])[0]) if cur is not None else None
+    r = dict(rep, request=op["desc"], server_calls=[c.replace(str(pid), "<pid>") for c in pr.trace][:24])
+    if op["kind"] == "put":
+        ch = bytes.fromhex(blake3_hex([op["content"]])[0])
+        return (f"hubcalls put {hc.of(curh)} {hc.of(op['exp'])} {hc.of(op['hash'])} {hc.of(ch)}", real, None, r)
+    if op["kind"] == "delete":
+        return (f"hubcalls del {hc.of(curh)} {hc.of(op['exp'])} 0 0", real, None, r)
+    # Get: reads of the live path only (it is not a step kind of the transition system)
+    return (None, real, real if real in ("-", "read") else "read", r)
+
+
+HASHCODES = None
 
 
 def run(pid, tier, seed, rundir, model_run):
@@ -142,6 +211,9 @@ def run(pid, tier, seed, rundir, model_run):
         dist[k] = dist.get(k, 0) + c
 
     ncases = 70 * (12 if tier == "thorough" else 1)
+    global HASHCODES
+    HASHCODES = HashCodes()
+    solo_traces = []
     dec = H.ReqDecoder()
     all_queries, case_info = [], []
     steps_checked = 0
@@ -294,6 +366,21 @@ def run(pid, tier, seed, rundir, model_run):
                 clients = [[gen_ops(rng, tree, pid, path=hot)[0]] for _ in range(nclients)]
                 b = H.frame(H.req_get(hot))
                 clients[0] = [{"kind": "get", "path": hot, "pieces": [b], "bytes": b, "desc": f"get {hot}"}]
+            third_party = (gi == 2)
+            if third_party:
+                # two writers with the same (current) expectation on one path and a third session that merely starts and
+                # ends: EVERY placement of the third session's whole life and of the second writer's whole request inside
+                # the first writer's call sequence (what a session does when it ENDS is a scheduling point too)
+                tree.setdefault(hot, rng.pick(CONTENTS))
+                curh_ = bytes.fromhex(blake3_hex([tree[hot]])[0])
+                def put_cur(c):
+                    h_ = bytes.fromhex(blake3_hex([c])[0])
+                    b_ = H.frame(H.req_put(hot, curh_, len(c), h_)) + c
+                    return {"kind": "put", "path": hot, "content": c, "variant": "ok", "pieces": [b_], "exp": curh_, "hash": h_, "bytes": b_, "desc": f"put {hot} {len(c)}B exp=cur ok in 1 piece(s)"}
+                cs_ = [c for c in CONTENTS if c != tree[hot]]
+                bg = H.frame(H.req_get(hot))
+                clients = [[put_cur(cs_[0])], [{"kind": "get", "path": hot, "pieces": [bg], "bytes": bg, "desc": f"get {hot}"}], [put_cur(cs_[1 % len(cs_)])]]
+                nclients = 3
             # make them collide: most requests of a configuration address the same path
             allowed = set(tree.values()) | {op["content"] for cl in clients for op in cl if op["kind"] == "put" and op["variant"] == "ok"}
             # schedules for this configuration, decided as we go: first every sequential order (which also tells how
@@ -318,6 +405,12 @@ def run(pid, tier, seed, rundir, model_run):
                                 one.append([(a, k)] + [(c, 99) for c in order] + [(a, 99)])
                     if tier != "thorough" and len(one) > nsched * 2:
                         one = [one[i] for i in sorted({rng.below(len(one)) for _ in range(nsched * 2)})]
+                    if third_party:
+                        n0 = max(2, lens.get(0, 8))
+                        for k1 in range(1, n0):
+                            for k2 in range(k1 + 1, n0 + 1):
+                                one.append([(0, k1), (1, 99), (0, k2 - k1), (2, 99), (0, 99)])
+                        count("gated/third-party-session-schedules", (n0 - 1) * n0 // 2)
                     pols2 = G.preemption_bounded(nclients, 9, 2)
                     chosen += one + [pols2[rng.below(len(pols2))] for _ in range(nsched // 4)] + [None] * (nsched // 4)
                     count("gated/one-preemption-schedules", len(one))
@@ -337,8 +430,11 @@ def run(pid, tier, seed, rundir, model_run):
                     rep = {"initial": sorted(tree), "clients": [[op["desc"] for op in cl] for cl in clients], "gated": True, "policy": pol, "kill_at": kill_at}
                     bad_steps = []
 
+                    snaps = {}
+
                     def on_step(r):
                         now = nonstaging(H.hub_tree(root))
+                        snaps[r.step] = now
                         for p_, content in now.items():
                             if content not in allowed:
                                 bad_steps.append((r.step, p_, len(content), any(content == op["content"] for cl in clients for op in cl if op["kind"] == "put")))
@@ -350,6 +446,13 @@ def run(pid, tier, seed, rundir, model_run):
                         for pr in run_.procs:
                             lens[pr.idx] = max(lens.get(pr.idx, 0), len(pr.trace))
                     rep["schedule"] = [f"{i}:{c}" for (_, i, c) in run_.events]
+                    if si < len(seq_orders) and kill_at is None and not run_.stuck:
+                        # trace conformance: a request that ran alone must make exactly the calls of the Lean
+                        # transition system's solo execution (Model/HubTrace.soloPut / soloDelete)
+                        for pr in run_.procs:
+                            op = clients[pr.idx][0]
+                            pre_tree = tree if not pr.first_go else snaps.get(pr.first_go, tree)
+                            solo_traces.append(solo_conformance(op, pr, pre_tree, rep))
                     if run_.stuck:
                         res["violations"].append(("gated-run-stuck", run_.stuck, rep))
                     for (st_, p_, ln_, okc) in bad_steps[:1]:
@@ -376,9 +479,27 @@ def run(pid, tier, seed, rundir, model_run):
                 if gi == 0 and si < 2 and len(res["samples"]) < 8:
                     res["samples"].append({"gated_schedule": rep["schedule"][:24], "clients": rep["clients"]})
     dec.close()
+    solo_q = [q for (q, _, _, _) in solo_traces if q is not None]
     with open(os.path.join(rundir, "ops.txt"), "w") as f:
-        f.write("\n".join(all_queries) + ("\n" if all_queries else ""))
+        f.write("\n".join(all_queries + solo_q) + ("\n" if all_queries or solo_q else ""))
     model = model_run(os.path.join(rundir, "ops.txt"))
+    solo_model = model[len(all_queries):]
+    model = model[:len(all_queries)]
+    res["disagreements"] = []
+    nsolo_dis, qi = 0, 0
+    for (q, real, pyexp, r_) in solo_traces:
+        if q is not None:
+            want = solo_model[qi] if qi < len(solo_model) else None
+            qi += 1
+        else:
+            want = pyexp
+        if want is None or (want or "-") != real:
+            nsolo_dis += 1
+            if len(res["disagreements"]) < 6:
+                res["disagreements"].append({"query": q or "(get: reads only)", "impl_calls": real, "model_calls": want, "case": {k: r_[k] for k in ("request", "server_calls", "clients", "initial") if k in r_}})
+    count("solo-traces-compared", len(solo_traces))
+    if nsolo_dis:
+        res["broken"].append(f"{pid}/corr/solo-trace: the file-system calls of {nsolo_dis} of {len(solo_traces)} requests that ran alone differ from the transition system's solo execution (Model/HubTrace; theorems C03.solo_put_is_a_run / solo_delete_is_a_run)")
     nlin = 0
     for info in case_info:
         ok = False
@@ -399,12 +520,13 @@ def run(pid, tier, seed, rundir, model_run):
             key = "not-linearizable"
             res["violations"].append((key, "replies + final tree equal no one-at-a-time execution of the same requests that respects real-time order (checked against the sequential Lean hub model)",
                                       dict(info["rep"], observed={f"{k[0]}.{k[1]}": v for k, v in info["observed"].items()}, final=info["final"], candidate_orders=len(info["perms"]))))
-    res.update(evaluations=len(case_info), distinct_nontrivial=len(case_info), n_disagreements=0, n_oracle_failures=len(res["violations"]),
+    res.update(evaluations=len(case_info) + len(solo_traces), distinct_nontrivial=len(case_info), n_disagreements=nsolo_dis, n_oracle_failures=len(res["violations"]),
                traces_validated=steps_checked,
                rule="2–3 clients, each with its own real server process on one root, 1–2 requests each over {Put (content in 1–3 pieces, expected = current / none / stale"
                     + (", wrong hash" if pid == "C10" else "") + "), Delete, Get} on 3 shared paths; a random interleaving at piece granularity (a whole request of one client can run while another's Put is half-streamed)"
                     + ("; a server is SIGKILLed at a random step in a third of the cases" if pid == "C10" else "")
                     + ". After every step the tree is read (C10 predicate); at the end replies + tree are checked for linearizability by running every real-time-compatible order through the sequential Lean model."
                     " Tier 2 (gated): 2–3 server processes with ONE request each run under an LD_PRELOAD gate that makes every file-system call on the tree (open/create/truncate, write, flock, rename, unlink) a scheduling point; "
-                    "one process runs at a time, schedules with ≤ 2 preemptions are sampled systematically and the rest at random (the step granularity of the Lean transition system); same oracles.")
+                    "one process runs at a time, schedules with ≤ 2 preemptions are sampled systematically and the rest at random (the step granularity of the Lean transition system); same oracles. "
+                    "Trace conformance: in the sequential gated schedules every server's call sequence (staging name = <dst>.<own pid>.copia-tmp, writes, lock, read of the live path, rename/unlink, unlock) must equal the labels of the Lean solo execution of that request from the observed pre-state.")
     return res
